@@ -165,6 +165,9 @@ func (c *Client) Hello(localName string) error {
 	if err := validateLine(localName); err != nil {
 		return err
 	}
+	if strings.ContainsAny(localName, " \t") {
+		return errors.New("smtp: the HELO/EHLO name must not contain whitespace")
+	}
 	if c.didHello {
 		return errors.New("smtp: Hello called after other methods")
 	}
@@ -347,6 +350,9 @@ func (c *Client) Mail(from string) error {
 	if err := validateLine(from); err != nil {
 		return err
 	}
+	if err := validateAddress(from); err != nil {
+		return err
+	}
 	if err := c.hello(); err != nil {
 		return err
 	}
@@ -376,6 +382,9 @@ func (c *Client) Mail(from string) error {
 // a [Client.Data] call or another Rcpt call.
 func (c *Client) Rcpt(to string) error {
 	if err := validateLine(to); err != nil {
+		return err
+	}
+	if err := validateAddress(to); err != nil {
 		return err
 	}
 
@@ -660,6 +669,51 @@ func (c *Client) debugLog(d log.Direction, f string, a ...interface{}) {
 	if c.debug {
 		c.logger.Debugf(log.Log{Direction: d, Format: f, Messages: a})
 	}
+}
+
+// validateAddress checks that addr can be placed between the angle brackets of a reverse-path
+// or forward-path (RFC 5321, section 4.1.2) without breaking out of them: the local part has to
+// be a dot-string or a well-formed quoted-string, and neither part may contain blanks, angle
+// brackets or control characters outside of that. Written as it is, anything else would be read
+// by the server as further arguments or ESMTP parameters of the command.
+func validateAddress(addr string) error {
+	errInvalid := errors.New("smtp: the address cannot be used in a MAIL or RCPT command, its local part needs quoting")
+	rest := addr
+	if strings.HasPrefix(rest, "\"") {
+		// quoted-string local part: find its end, honouring quoted-pairs
+		end := -1
+		for i := 1; i < len(rest); i++ {
+			if rest[i] == '\\' {
+				i++
+				if i >= len(rest) || rest[i] < 32 || rest[i] > 126 {
+					return errInvalid
+				}
+				continue
+			}
+			if rest[i] == '"' {
+				end = i
+				break
+			}
+			if rest[i] < 32 || rest[i] == 127 {
+				return errInvalid
+			}
+		}
+		if end < 0 || end+1 >= len(rest) || rest[end+1] != '@' {
+			return errInvalid
+		}
+		rest = rest[end+1:]
+	}
+	for i := 0; i < len(rest); i++ {
+		char := rest[i]
+		if char <= 32 || char == 127 || strings.IndexByte("<>()\",;:\\", char) >= 0 {
+			return errInvalid
+		}
+	}
+	// everything before the last '@' is local part: it must not contain another '@' unless quoted
+	if strings.Count(rest, "@") > 1 {
+		return errInvalid
+	}
+	return nil
 }
 
 // validateLine checks to see if a line has CR or LF as per RFC 5321.
